@@ -60,6 +60,10 @@ def step (st : St) (line : String) : IO St := do
       IO.println s!"ORACLE C12 vector kernels at n={n} threads={(kv rest "threads").getD ""} on a {(kv rest "shape").getD ""} vector (infinity norm reported {(hexR ((kv rest "inf").getD ""))}, exact {inf}) do not equal their mathematical definition to rounding (dot/l1/l2/inf/elementwise)"
       st := { st with oracleFails := st.oracleFails + 1 }
     return { st with vecs := st.vecs + 1, stats := { st.stats with cases := st.stats.cases + 1, checks := st.stats.checks + 1 } }
+  | "VECBEGIN" :: _ => return st
+  | "VECCOPY" :: _ =>
+    IO.println s!"ORACLE C15 {line.trimAscii}"
+    return { st with oracleFails := st.oracleFails + 1 }
   | "Switching" :: _ => return st
   | "seed" :: _ => return st
   | ["end"] => return st
